@@ -590,3 +590,21 @@ func GenRobustnessScript(t *rapid.T, thorough bool) *Script {
 	s.Ops = ops
 	return s
 }
+
+// GenClosedSystemScript: fixed nodes/queues/workloads; evicted pods are recreated; binds complete.
+func GenClosedSystemScript(t *rapid.T, thorough bool) *Script {
+	o := mixedOpts(thorough)
+	o.Faults, o.BindFailures, o.MIG, o.Completions, o.Terminating, o.MinRuntime = false, false, false, false, false, false
+	o.MaxWorkloads = 7
+	s := GenScript(t, "C15", "closed-system", o)
+	s.Config.SaturationMultiplier = pick(t, "saturation", "", "1.5", "3")
+	rounds := 14
+	if thorough {
+		rounds = 30
+	}
+	s.Ops = nil
+	for i := 0; i < rounds; i++ {
+		s.Ops = append(s.Ops, Op{Kind: "cycle"}, Op{Kind: "binder"}, Op{Kind: "kubelet"}, Op{Kind: "advance", N: 1}, Op{Kind: "recreate"})
+	}
+	return s
+}
